@@ -143,6 +143,21 @@ pub(crate) fn sample_request_as_json() -> String {
     .unwrap()
 }
 
+/// Offsets in requests come from the client and may not fit `input`:
+/// bring them inside the string and onto character boundaries, so the
+/// lexer is never asked to slice outside the text it was given.
+fn clamp_to_input(input: &str, offset: usize, end_offset: usize) -> (usize, usize) {
+    let mut end_offset = end_offset.min(input.len());
+    while !input.is_char_boundary(end_offset) {
+        end_offset -= 1;
+    }
+    let mut offset = offset.min(end_offset);
+    while !input.is_char_boundary(offset) {
+        offset -= 1;
+    }
+    (offset, end_offset)
+}
+
 fn handle_load_request(
     id: Option<usize>,
     path: &Path,
@@ -154,6 +169,7 @@ fn handle_load_request(
     let abs_path = to_abs_path(path);
 
     let vfs_path = env.vfs.insert(Rc::new(abs_path.clone()), input.to_owned());
+    let (offset, end_offset) = clamp_to_input(input, offset, end_offset);
     let (items, errors) =
         parse_toplevel_items_from_span(&vfs_path, input, &mut env.id_gen, offset, end_offset);
 
@@ -704,13 +720,13 @@ fn handle_run_eval_request(
     };
 
     let vfs_path = env.vfs.insert(Rc::new(path.clone()), input.to_owned());
-    let (items, errors) = parse_toplevel_items_from_span(
-        &vfs_path,
+    let (offset, end_offset) = clamp_to_input(
         input,
-        &mut env.id_gen,
         offset.unwrap_or(0),
         end_offset.unwrap_or(input.len()),
     );
+    let (items, errors) =
+        parse_toplevel_items_from_span(&vfs_path, input, &mut env.id_gen, offset, end_offset);
 
     if !errors.is_empty() {
         return as_error_response(errors, &env.vfs, &env.project_root);
